@@ -66,8 +66,28 @@ def alnum(cp):
 
 def build(prog, g, root="version", extra_chars="vV.-+"):
     """alphabet, PEG denotation of `root`, reference languages"""
+    from .. import verifyre
     preds = OrderedDict()
-    for ch in sorted(literals_in(g, root) | set(extra_chars)):
+    vnodes = []
+
+    def vvisit(p, path, seen=set()):
+        if p.kind == "verify":
+            vnodes.append(p)
+        if p.kind == "ref" and p.extra in g and p.extra not in seen:
+            seen.add(p.extra)
+            gram.walk(g[p.extra], vvisit)
+    if root in g:
+        gram.walk(g[root], vvisit)
+    vpaths = []
+    for node in vnodes:
+        try:
+            vpaths.append((node, verifyre.analyse(prog, node.extra)))
+        except Inconclusive:
+            pass                        # the denotation of this node stays inconclusive
+    vchars = set()
+    for _, paths in vpaths:
+        vchars |= verifyre.pattern_chars(paths)
+    for ch in sorted(literals_in(g, root) | set(extra_chars) | vchars):
         preds[("lit", ch)] = (lambda cp, ch=ch: cp == ord(ch))
     preds["digit"] = lambda cp: 0x30 <= cp <= 0x39
     preds["space"] = lambda cp: cp in (0x20, 0x09)
@@ -86,6 +106,18 @@ def build(prog, g, root="version", extra_chars="vV.-+"):
     class_of, k, classes, reps = peg.build_alphabet(preds, REPS)
     L = peg.Lang(k)
     P = peg.Peg(L, g, classes)
+    for node, paths in vpaths:
+        try:
+            P.verify_langs[id(node)] = verifyre.accepted_language(L, classes, class_of, paths)
+        except Inconclusive:
+            pass
+
+    def vhook(node, i, j, w):
+        R = P.verify_langs.get(id(node))
+        if R is None:
+            raise Inconclusive("direct evaluator: verify() predicate without a regular language")
+        return peg.dfa_accepts(R, w[i:j])
+    peg.VERIFY_HOOK[0] = vhook
     return L, P, classes, reps, classes_cp, class_of
 
 
